@@ -838,6 +838,14 @@ func (x *Exec) evalCall(env *Env, e *SExpr) Val {
 	case "abs":
 		a := arg(0).Term()
 		return mathVal(Ite(Ge(a, IntC(0)), a, Neg(a)))
+	case "deref":
+		// deref(p): the value of the variable the pointer p points to, in the state the expression is evaluated in
+		pv := arg(0)
+		a := x.ptrAddr(pv)
+		if a == nil {
+			x.evalFail("deref: %s is not a pointer to a variable", e.Args[0].String())
+		}
+		return x.loadAddr(env.st, a)
 	case "ref":
 		v := arg(0)
 		return mathVal(v.L[0])
